@@ -1,7 +1,55 @@
-"""Helpers shared by the data-table drivers (C22, C43, C35)."""
+"""Helpers shared by the data-table drivers (C22, C43, C35).
+
+enumerate_cases / judge below are vf.table's functions with one addition, a `workers` parameter: these table
+models consist of initial states only, and TLC with `-workers auto` (16 threads) was measured 4x slower on them
+than with 4 workers (contention while the initial states are generated and checked).  The generated wrapper
+modules are vf.table's own templates."""
 import json
 
 from vf import table
+from vf.tlc import MachineryError, render_cfg, require_ok, run_tlc, sany
+
+WORKERS = 4
+
+
+def enumerate_cases(ctx, engine: str, module: str, *, constants=None, invariants=(), timeout: int = 1500,
+                    workers: int = WORKERS) -> list[dict]:
+    wd = ctx.wd.stage(engine)
+    invs = "\n".join(f"Inv_{x} == {x}(c)" for x in invariants)
+    (wd / f"{module}_Enum.tla").write_text(table.ENUM.format(m=module, cases="Cases", expected="Expected", invs=invs))
+    sany(wd, f"{module}_Enum")
+    cfg = render_cfg(init_next=("EnumInit", "EnumNext"), constants=constants,
+                     invariants=[f"Inv_{x}" for x in invariants] + ["Emit"])
+    r = run_tlc(wd, f"{module}_Enum", cfg, timeout=timeout, cfg_name=f"{module}_enum.cfg", workers=workers)
+    ctx.add_tlc(f"{module}:enumerate", r)
+    require_ok(r, f"{module} table enumeration / table invariants {list(invariants)}")
+    if len(r.json_lines) != r.distinct:
+        raise MachineryError(f"{module}: {r.distinct} cases but {len(r.json_lines)} emitted")
+    return r.json_lines
+
+
+def judge(ctx, engine: str, module: str, observations: list[dict], *, constants=None, timeout: int = 1500,
+          chunk: int = 20000, workers: int = WORKERS) -> list[tuple[int, list[str]]]:
+    wd = ctx.wd.stage(engine)
+    (wd / f"{module}_Obs.tla").write_text(table.OBS.format(m=module, conforms="Conforms"))
+    sany(wd, f"{module}_Obs")
+    bad: list[tuple[int, list[str]]] = []
+    for off in range(0, len(observations), chunk):
+        part = observations[off:off + chunk]
+        f = wd / f"obs_{module}_{off}.json"
+        f.write_text(json.dumps(part))
+        cfg = render_cfg(init_next=("ObsInit", "ObsNext"), constants=constants, invariants=["Judge"])
+        r = run_tlc(wd, f"{module}_Obs", cfg, timeout=timeout, env={"OBS_FILE": str(f)}, cfg_name=f"{module}_obs.cfg",
+                    workers=workers)
+        ctx.add_tlc(f"{module}:judge[{off}:{off + len(part)}]", r)
+        require_ok(r, f"{module} observation judging")
+        if r.distinct != len(part):
+            raise MachineryError(f"{module}: judged {r.distinct} of {len(part)} observations")
+        ctx.traces_validated += len(part) - len(r.json_lines)
+        for j in r.json_lines:
+            bad.append((off + j["i"] - 1, list(j["bad"])))
+        f.unlink()
+    return bad
 
 
 def judge_dedup(ctx, engine: str, module: str, records: list[dict], *, constants=None, chunk: int = 20000):
@@ -20,7 +68,7 @@ def judge_dedup(ctx, engine: str, module: str, records: list[dict], *, constants
     for k in order:
         c, o = json.loads(k)
         uniq.append({"case": c, "obs": o})
-    bad = table.judge(ctx, engine, module, uniq, constants=constants, chunk=chunk)
+    bad = judge(ctx, engine, module, uniq, constants=constants, chunk=chunk)
     # judge() counted accepted *distinct* pairs; credit the concrete executions behind them as well
     bad_idx = {i for i, _ in bad}
     extra_ok = sum(len(groups[order[i]]) - 1 for i in range(len(order)) if i not in bad_idx)
@@ -55,6 +103,7 @@ def faithful_counterexample(ctx, engine: str, module: str, *, constants: dict, i
         return None
     if r.violated != "FInv":
         raise MachineryError(f"{mod}: expected FInv to be refuted, got violated={r.violated} error={r.error}\n{r.out[-2000:]}")
-    text = r.counterexample[0][1] if r.counterexample else ""
-    m = re.search(r"c = (.*)", text, re.S)
-    return (m.group(1).strip() if m else text)[:1500]
+    m = re.search(r"violated by the initial state:\s*\n(.*?)\n\s*\n", r.out, re.S)
+    text = m.group(1) if m else (r.counterexample[0][1] if r.counterexample else r.out[-800:])
+    text = re.sub(r"^\s*c = ", "", text.strip())
+    return " ".join(text.split())[:1500]
